@@ -10,6 +10,16 @@ package data
 // The decoder closures report a malformed message by panicking with the error; they run only
 // inside qp.BuildMap / qp.Map / qp.List, which recover every panic into a returned error
 // (inventory obligation "decoder-panics-confined").
+// The decoders return a message or an error, never neither.
+//@ func data.DecodeUnixFSData
+//@ prop C09 C13 C14
+//@ ensures message-or-error: (err == nil ==> result != nil) && (err != nil ==> result == nil)
+//@ func data.DecodeUnixTime
+//@ prop C09 C13
+//@ ensures message-or-error: (err == nil ==> result != nil) && (err != nil ==> result == nil)
+//@ func data.DecodeUnixFSMetadata
+//@ prop C09 C13
+//@ ensures message-or-error: (err == nil ==> result != nil) && (err != nil ==> result == nil)
 //@ func data.DecodeUnixFSData$1
 //@ may_panic
 //@ func data.DecodeUnixTime$1
@@ -25,6 +35,7 @@ package data
 //@ func data.consumeUnixFSData
 //@ prop C14
 //@ loop 0 decreases len(remaining)
+//@ loop 0 invariant the-list-builder-exists-with-its-assembler: la != nil ==> bsa != nil
 // C09 (decode side): each wire number of the UnixFS Data schema is decoded into its logical field
 // with the value read from the wire; a mode is rejected exactly when it does not fit 32 bits; and
 // inside the field loop the decoder gives up only for a wire-level reason (truncated or malformed
@@ -74,7 +85,10 @@ package data
 //@ at call google.golang.org/protobuf/encoding/protowire.AppendFixed32#1 assert FractionalNanoseconds-value-is-written: callee_v == uint32(node.FractionalNanoseconds.v.x)
 //@ ensures encoded-length: len(result) == len(enc) + sizeTag(1) + sizeVarint(uint64(node.Seconds.x)) + ite(node.FractionalNanoseconds.m == 2, sizeTag(2) + 4, 0)
 
+// (shape: a generated optional field that says "value" holds one -- the generated builders set the
+// two together.)
 //@ func data.AppendEncodeUnixFSData
+//@ shape an-mtime-that-exists-holds-a-value: node.Mtime.m == 2 ==> node.Mtime.v != nil
 // C09 (encode side): each logical field is written under the schema's wire number and wire type, only
 // when it is present, with its own value.
 //@ at call google.golang.org/protobuf/encoding/protowire.AppendTag#1 assert DataType-is-wire-number-1: callee_num == 1 && callee_typ == 0 && (true)
